@@ -136,6 +136,14 @@ def store_rules(facts, rep):
                     "the shared data_start is read in %s: behaviour of a handle now depends on what other handles did" % sorted(set(lp) - allowed))
     for nm in ("load", "store"):
         g = facts.one(r"^types::AtomicU64::%s$" % nm)
+        # the wrapper is a pure, unconditional delegation to the std atomic: one call, no branch (a store that is skipped under some
+        # condition -- "only the first one", a try_lock that gives up -- makes what a handle reports depend on its clones' history)
+        std_calls = [t for b, t in g.calls() if callee_matches(t, r"atomic::Atomic\w*(::<[^>]*>)?::(load|store)$")]
+        other_calls = [t["callee"] for b, t in g.calls() if not callee_matches(t, r"atomic::Atomic\w*(::<[^>]*>)?::(load|store)$")]
+        branches = [b for b, blk in enumerate(g.blocks) if not blk.get("cleanup") and blk["term"] and blk["term"]["k"] == "switch"]
+        ok &= rep.check(len(std_calls) == 1 and not other_calls and not branches, rule, "wrapper-delegates:%s" % nm, where(g, g.span),
+                        "AtomicU64::%s is exactly one std atomic %s, unconditionally" % (nm, nm),
+                        "AtomicU64::%s is no longer a plain delegation (%d atomic calls, other calls %s, %d branches)" % (nm, len(std_calls), other_calls[:2], len(branches)))
         exg = Ex(g)
         ords = [show(norm(exg.operand(a, (b, None)))) for b, t in g.calls() for a in t["args"][-1:] if callee_matches(t, r"atomic::Atomic\w*(::<[^>]*>)?::(load|store)$")]
         ok &= rep.check(all("Relaxed" in o for o in ords) and ords, rule, "ordering:%s" % nm, where(g, g.span), "Relaxed (no other memory is published through it)", "ordering %s" % ords)
